@@ -259,6 +259,31 @@ theorem C09_step_cr {norm : Text → Text} {o : Op} {u T : Text} (hcr : NoCR u) 
   rw [hT, C09L.fold_cr hcr', C09L.fold_cr hcr]
   exact ⟨rfl, rfl, C09_step (o := { o with skipExisting := false }) ha hg⟩
 
+/-- **A history on a CRLF file.**  The file starts as the CRLF form of an LF text `u`; every invocation that writes is good (for
+    `C09_step`) at the LF text behind the file and writes no carriage return of its own (`Spec.GoodRunForm`).  Then the file
+    stays the CRLF form of an LF text throughout (`runLF`), lint's decoder reads that LF text, and it declares everything
+    `u` declared and everything requested by every successful step. -/
+theorem C09_history_crlf {norm : Text → Text} (u : Text) (ops : List Op) (hg : GoodRunForm norm toCRLF u ops)
+    (hcr : NoCR u) (hlf : '\n' ∈ u) :
+    run (toCRLF u) ops = toCRLF (runLF toCRLF u ops) ∧
+    Declares norm (extractRaw (foldLineEndings (run (toCRLF u) ops)))
+      ((extractRaw (foldLineEndings (toCRLF u))).cpr ++ (accumulated (toCRLF u) ops).1)
+      ((extractRaw (foldLineEndings (toCRLF u))).lic ++ (accumulated (toCRLF u) ops).2) := by
+  obtain ⟨h1, h2, h3⟩ := C09L.history_form C09L.leForm_crlf u ops hg hcr hlf
+  rw [h2, C09L.fold_crlf hcr]
+  exact ⟨h1, h3⟩
+
+/-- **A history on a CR file.** -/
+theorem C09_history_cr {norm : Text → Text} (u : Text) (ops : List Op) (hg : GoodRunForm norm toCR u ops)
+    (hcr : NoCR u) (hlf : '\n' ∈ u) :
+    run (toCR u) ops = toCR (runLF toCR u ops) ∧
+    Declares norm (extractRaw (foldLineEndings (run (toCR u) ops)))
+      ((extractRaw (foldLineEndings (toCR u))).cpr ++ (accumulated (toCR u) ops).1)
+      ((extractRaw (foldLineEndings (toCR u))).lic ++ (accumulated (toCR u) ops).2) := by
+  obtain ⟨h1, h2, h3⟩ := C09L.history_form C09L.leForm_cr u ops hg hcr hlf
+  rw [h2, C09L.fold_cr hcr]
+  exact ⟨h1, h3⟩
+
 /-- an LF file is read as it is -/
 theorem C09_fold_lf {u : Text} (hcr : NoCR u) : foldLineEndings u = u := C09L.fold_lf hcr
 
@@ -403,6 +428,7 @@ example : lineEnded "a\n".toList = true ∧ lineEnded "a".toList = false := by d
 example : ¬ EndGuarded (.star (.cls false [('\n', '\n')])) := by decide
 example (t : Text) : GoodRunFull id t [] := GoodRunFull.nil t
 example (t : Text) : GoodRunAny id t [] := GoodRunAny.nil t
+example (u : Text) : GoodRunForm id toCRLF u [] := GoodRunForm.nil u
 example : endYears ["2019".toList, "2023".toList, "２０１６".toList] = ["２０１６".toList, "2023".toList] := by decide
 
 end C09
